@@ -115,7 +115,7 @@ impl RuledefMap
             let token = walker.next_nth_token(walker_index);
             walker_index += 1;
 
-            if token.kind.is_allowed_pattern_token()
+            if !token.kind.is_ignorable()
             {
                 for c in walker.get_span_excerpt(token.span).chars()
                 {
